@@ -119,8 +119,8 @@ namespace
         path.push_back(nav->name);
         while (nav->id_parent_logical != config::invalid_id)
         {
-            path.push_back(nav->name);
             nav = nav.parent_logical();
+            path.push_back(nav->name);
         }
 
         std::reverse(path.begin(), path.end());
